@@ -15,6 +15,8 @@ CLAIMED = {
  "C03": C("Seeded search over accepted configurations built from boundary duration strings and NAT64 prefixes of every family/length; the simulated transport marshals like the real socket, so an unencodable RA fails the daemon at start-up exactly as in production; decoded values are compared with the configured meaning and representability is judged per field.", "6 (C03)"),
  "C04": C("Seeded search over forwarding on/off timelines per interface interleaved with RA generation on all seven paths (initial, periodic, solicited, final, consistency check, metrics scrape, debug API) of the whole daemon; each RA/log line/metric/API answer is judged against the forwarding value that very build was given.", "6 (C04)"),
  "C06": C("Seeded search over solicitation/tick timelines (bounded-exhaustive grid corpus of <=3 (quick) / <=5 (thorough) solicitations from :: around the 3 s boundary x 3 interval settings, then random bursts, link flaps, transmit latency) against the real Advertiser on a fake clock; the spacing and served-within-3s rules are evaluated on the recorded WriteTo history.", "6 (C06)"),
+ "C07": C("Seeded search over solicitation sequences (sources, repeats, bursts beyond the request queue, duplicates, timer-tick neighbourhoods, unicast_only on/off) with separate fault-free, transmit-latency, transmit-error and link-flap populations; unicast RAs are matched one-to-one with solicitations per destination and dial generation inside the 500 ms window, destinations and content are checked, and the sent/received/error counters are reconstructed from the metric update stream and compared with the transmissions actually made.", "6 (C07)"),
+ "C08": C("The schedule space is the point: seeded stop instants (SIGTERM/SIGINT/SIGHUP) relative to pending solicited/periodic work, with send workers parked by the simulator in their forwarding read or inside WriteTo across the stop and released before, shortly after or long after it; exactly-one-final-RA, final-is-last, no-final-on-reload, nothing-after-return, clean result and promptness are judged on the ordered WriteTo/seam history.", "6 (C08)"),
  "C13": C("Address tables are environment nondeterminism: enumerated subsets (size <=2 quick / <=4 thorough) x all permutations of a 17-address pool, then seeded larger tables that change, are permuted, duplicated, emptied or fail while the daemon runs; each transmitted RA's prefix options are compared with the model applied to the listing that build was given.", "6 (C13-C15)"),
  "C14": C("Same populations as C13; the first RDNSS server of every transmitted RA is compared with the documented ranking applied to the listing that build was given; RAs transmitted although no address was eligible or the listing failed are violations.", "6 (C13-C15)"),
  "C15": C("Loopback route tables: enumerated subsets (size <=2 quick / <=4 thorough) x all permutations of a 13-route pool (nested prefixes with equal and different base, /128, ::/0, duplicates across two loopback interfaces), then seeded changing / permuted / duplicated / failing dumps; route options of every transmitted RA are compared with the model.", "6 (C13-C15)"),
